@@ -53,9 +53,13 @@ def search(skip_known=True, limit=None):
     n = 0
     for i, j in itertools.product(range(len(srcs)), repeat=2):
         res = sigs[i].can_assign(sigs[j], ctx)
+        from replay.util import count, sample
+        count(evaluations=1, distinct=1)
         if isinstance(res, CanAssignError):
             continue
         n += 1
+        if n == 1:
+            sample({"expected": srcs[i], "actual": srcs[j], "accepted": True, "shapes_checked": len(shapes)})
         for k, sh in enumerate(shapes):
             if table[i][k] and not table[j][k]:
                 if skip_known and is_d5(srcs[i], funcs[j], sh):
@@ -79,6 +83,8 @@ def search_typed():
         fs[(p, r)] = ctx.arg_spec_cache.get_argspec(env["f"])
     for (p1, r1), (p2, r2) in itertools.product(fs, repeat=2):
         ok = not isinstance(fs[(p1, r1)].can_assign(fs[(p2, r2)], ctx), CanAssignError)
+        from replay.util import count
+        count(evaluations=1, distinct=1)
         want = (p1, p2) in sub and (r2, r1) in sub   # expected param type <= actual param type; actual return <= expected return
         if ok != want:
             return (f"(x: {p2}) -> {r2} {'accepted' if ok else 'rejected'} where (x: {p1}) -> {r1} is expected; "
@@ -102,3 +108,88 @@ if __name__ == "__main__":
     print(search(skip_known=False))
     print(search())
     print(search_typed())
+
+
+# ---- method overrides (NameCheckVisitor._check_for_incompatible_overrides / _can_assign_to_base_callable) -------------
+OV_SIGS = ["", "x", "x, y=0", "x, y", "*args", "x, *args", "x, **kw", "*, x", "x=0", "x, /", "y", "x, *, k=0", "**kw"]
+
+
+def search_overrides(skip_known=True):
+    """incompatible_override is reported for class C(Base...) exactly when some call shape that binds to a base's method
+    fails on the overriding method (real calls on instances); single and double inheritance, functions assigned in the body"""
+    from replay.checkcode import check_code
+    from replay.util import count, sample
+    shapes = []
+    for npos in range(0, 4):
+        for kws in [(), ("x",), ("y",), ("k",), ("x", "y"), ("x", "k"), ("y", "k"), ("z",)]:
+            shapes.append(", ".join(["1"] * npos + [f"{k}=1" for k in kws]))
+    lines = []
+    plan = []   # (class name, line of the override, [base sig sources], child sig source, kind)
+    n = 0
+
+    def meth(sig):
+        return f"    def m(self{', ' + sig if sig else ''}): return 0"
+    for b in OV_SIGS:
+        lines += [f"class B{n}:", meth(b)]
+        bn = n
+        n += 1
+        for c in OV_SIGS:
+            lines += [f"class C{n}(B{bn}):", meth(c)]
+            plan.append((f"C{n}", len(lines), [b], c, "def"))
+            n += 1
+    # double inheritance: compatible with the first base, maybe not with the second
+    for b1, b2, c in [("x", "x, y=0", "x"), ("x, y=0", "x", "x"), ("x", "x, y=0", "x, y=0"), ("*args", "x", "*args"), ("x", "*, k=0", "x, *, k=0"), ("x", "x, *, k=0", "x")]:
+        lines += [f"class P{n}:", meth(b1), f"class Q{n}:", meth(b2), f"class C{n}(P{n}, Q{n}):", meth(c)]
+        plan.append((f"C{n}", len(lines), [b1, b2], c, "def"))
+        n += 1
+    # a plain function assigned in the class body
+    for hsig, kind in [("*, x=0", "nofirst"), ("self, x", "ok"), ("*args", "ok"), ("self", "short")]:
+        lines += [f"def helper{n}({hsig}): return 0", f"class B{n}:", meth("x"), f"class C{n}(B{n}):", f"    m = helper{n}"]
+        plan.append((f"C{n}", len(lines), ["x"], hsig, "assigned"))
+        n += 1
+    src = "\n".join(lines) + "\n"
+    env = {}
+    exec(src, env)
+    res = check_code(src)
+    flagged = {fl["lineno"] for fl in res if fl["code"].name == "incompatible_override"}
+    count(evaluations=len(plan), distinct=len(plan))
+    for cname, ln, bases, csig, kind in plan:
+        child = env[cname]()
+        loses = None
+        for bsig in bases:
+            benv = {}
+            exec(f"class B:\n{meth(bsig)}\n", benv)
+            bobj = benv["B"]()
+            for sh in shapes:
+                try:
+                    eval(f"o.m({sh})", {"o": bobj})
+                except TypeError:
+                    continue
+                try:
+                    eval(f"o.m({sh})", {"o": child})
+                except TypeError as e:
+                    if skip_known and "multiple values for argument" in str(e) and ("*" in bsig):
+                        continue   # D5 class
+                    loses = (bsig, sh)
+                    break
+            if loses:
+                break
+        if loses and ln not in flagged:
+            return (f"class {cname} overrides m({', '.join(bases)}) by m({csig}) [{kind}]: the call m({loses[1]}) binds to the base method m({loses[0]}) and raises TypeError "
+                    f"on the overriding one, but no incompatible_override is reported")
+        if not loses and ln in flagged:
+            return f"class {cname} overrides m({', '.join(bases)}) by m({csig}) [{kind}]: every call shape that binds to the base method binds to the override, but incompatible_override is reported"
+    return None
+
+
+_old_r_c07 = r_c07
+
+
+def r_c07(rec):
+    msg = search() or search_typed() or search_overrides()
+    return (True, msg) if msg else (False, "accepted signature pairs preserve every call shape; variance holds on the typed pairs; overrides are flagged exactly when a call shape is lost")
+
+
+REPLAYERS["C07.bounded"] = r_c07
+REPLAYERS["pyanalyze.signature.can_assign_var_positional"] = r_c07
+REPLAYERS["pyanalyze.signature.can_assign_var_keyword"] = r_c07
